@@ -81,6 +81,13 @@ static char rbuf[65536];
 
 static void do_ops(char* ops, int in_cb);
 
+/* close without leaving a TIME_WAIT entry (thousands of cases per run share the port range) */
+static void abort_close(int fd) {
+  struct linger lg; lg.l_onoff = 1; lg.l_linger = 0;
+  setsockopt(fd, SOL_SOCKET, SO_LINGER, &lg, sizeof lg);
+  close(fd);
+}
+
 static void track(int fd, int id) { if (fd >= 0 && fd < MAXFD) id_of_fd[fd] = id; }
 static int tracked(int fd) { return (fd >= 0 && fd < MAXFD) ? id_of_fd[fd] : -1; }
 
@@ -412,15 +419,16 @@ static void run_case(char* line) {
   fclose(alog); fclose(rlog); fclose(mlog); fclose(olog); fclose(evlog);
   printf("%s; %s; %s; %s; ", g_mode == 'i' ? mlog_b : alog_b, ev_b, rlog_b, olog_b);
   if (g_mode != 'i') client_states();
-  printf("\n");
+  printf("; ");
 
   /* tear down quietly */
   g_quiet = 1; g_active = 0;
   uv_walk(&loop, walk_close, NULL);
   for (i = 0; i < 50 && uv_run(&loop, UV_RUN_NOWAIT); i++) ;
-  uv_loop_close(&loop);
-  for (i = 0; i < nclient; i++) if (cfd[i] >= 0) close(cfd[i]);
-  for (i = 0; i < nsent; i++) if (sent[i].peer >= 0) close(sent[i].peer);
+  { int alive = uv_loop_alive(&loop); printf("%d,%d", alive, uv_loop_close(&loop)); }   /* 7th section */
+  printf("\n");
+  for (i = 0; i < nclient; i++) if (cfd[i] >= 0) abort_close(cfd[i]);
+  for (i = 0; i < nsent; i++) if (sent[i].peer >= 0) abort_close(sent[i].peer);
   if (ipc_peer >= 0) close(ipc_peer);
   if (g_mode == 'u') unlink(srv_path);
   if (udp_recv >= 0) { char junk[64]; while (recv(udp_recv, junk, sizeof junk, MSG_DONTWAIT) > 0) ; }
